@@ -93,4 +93,29 @@ def ackErr (s : Sys) (w : String) : Option Err :=
   | some st => (sync w st s.log s.log.length).2
   | none => none
 
+/-! ### the id discipline of the real code
+
+Every `JournalStorage` object draws a fresh `uuid4` worker id, so a `join` / `restore` never re-uses an id that
+joined or restored before; and every public writer syncs before it returns, so a worker that is between calls has
+no `append` of its own still waiting for its `sync`. -/
+
+/-- every `join w` / `restore w k` of the list uses an id that no earlier `join` / `restore` (of the list or of `seen`) used -/
+def freshFrom (seen : List String) : List Ev → Bool
+  | [] => true
+  | .join w :: rest => !seen.contains w && freshFrom (w :: seen) rest
+  | .restore w _ :: rest => !seen.contains w && freshFrom (w :: seen) rest
+  | _ :: rest => freshFrom seen rest
+
+/-- **FreshIds**: worker ids are never re-used by a `join` / `restore` (decidable on the event list) -/
+def FreshIds (evs : List Ev) : Bool := freshFrom [] evs
+
+/-- the number of `append`s of `w` whose `sync` is still outstanding (a `call` is an `append` and its `sync`) -/
+def pendStep (w : String) (p : Nat) : Ev → Nat
+  | .append w' _ => if w' == w then p + 1 else p
+  | .sync w' => if w' == w then p - 1 else p
+  | _ => p
+
+/-- `pending w evs = 0`: `w` is between calls after `evs` -/
+def pending (w : String) (evs : List Ev) : Nat := evs.foldl (pendStep w) 0
+
 end OptunaVerif.JournalRun
